@@ -22,7 +22,9 @@ PROPS = {
         "quick": {"runs": 4000, "seconds": 60},
         "thorough": {"runs": 200000, "seconds": 780},
         "rule": "one evaluation = one generated scenario (1-5 nodes, RF 1..min(nodes,5), hashmod|ketama, 1-2 concurrent client requests of 1-3 series, "
-                "entering over HTTP or gRPC, fresh or already replicated, optionally two tenants) executed once per outcome vector over "
+                "entering over HTTP or gRPC, fresh or already replicated, optionally two tenants; in a third of the scenarios the handlers split tenants by a label none of the series carries, and in two thirds "
+                "of those every client first sends a request the handler must reject - a later series of it names an invalid tenant - through its "
+                "entry node) executed once per outcome vector over "
                 "{ok, conflict, unavailable, other} for the (node,replica) pairs the scenario touches: all 4^pairs vectors when that is <= 64 "
                 "(thorough: 1024), otherwise 40 (160) drawn vectors incl. all-ok; each vector in its own simulated execution with a drawn order of "
                 "forward deliveries / local write completions, every second vector of half of the scenarios with hash-derived transport faults "
@@ -69,8 +71,9 @@ PROPS = {
         "thorough": {"runs": 4000000, "seconds": 720},
         "rule": "one evaluation = one node (RF=1) whose real Limiter built the real gate from a limits file with max_concurrency 1-3; 2-6 clients "
                 "(protobuf remote write or OTLP) arrive, their writes park inside the TSDB stub, and in half of the runs a drawn subset cancel their "
-                "request context at a scheduler-chosen step (only after the request was sent); invariant after every step: writes in progress <= "
-                "max_concurrency; a panic in a handler goroutine is a violation. distinct = distinct event-log hash; non-trivial = run completed.",
+                "request context at a scheduler-chosen step (only after the request was sent); in a third of the runs the limits file is re-read 1-2 times at scheduler-chosen steps (every reload installs a fresh gate; requests "
+                "admitted by an older gate finish on it); invariant after every step: writes in progress <= max_concurrency per gate generation "
+                "(= max_concurrency without reloads); a panic in a handler goroutine is a violation. distinct = distinct event-log hash; non-trivial = run completed.",
         "components": {"real": RW_REAL + ["pkg/receive OTLP translation"], "stub": RW_STUB},
         "assumptions": ["single-node ring: one admitted HTTP request = exactly one local write (forwarded writes bypass the gate by design)",
                         "a client only cancels a request it has already sent (a request arriving with an already-cancelled context would make "
